@@ -336,6 +336,34 @@ def register(gen, T):
         out.append("/-- msl: a cbuffer block becomes a global `ConstantBuffer<struct>` with the cbuffer's name and slot before analyse_bindings -/\n")
         out.append(f"def mslCbufferBecomesConstantBufferGlobal : Bool := {'true' if sc_ok and sc_called else 'false'}\n")
 
+        # ------------------------------------------------------------------ the reflection does not depend on a selected pipeline
+        # (compile() with no_pipeline_mode() exports a module whose selected_pipeline is None; seed C18-7)
+        hgm = normws(fn_body(hgen, "generate_module"))
+        h_loop = "for decl in &module.root_definitions { analyse_bindings(decl, &mut context)?; }"
+        h_sel = hgm.find("selected_pipeline")
+        h_ok = (h_loop in hgm and (h_sel < 0 or hgm.find(h_loop) < h_sel) and
+                "pipeline_description: context.pipeline_description," in hgm and "PipelineDescription::default()" not in hgm)
+        out.append("\n/-- hlsl `generate_module`: the `analyse_bindings` loop over every root definition runs before (and outside) anything that\n"
+                   "    looks at `module.selected_pipeline`, and its result is what `GeneratedAST.pipeline_description` carries -/\n")
+        out.append(f"def hlslBindingsReportedWithoutPipeline : Bool := {'true' if h_ok else 'false'}\n")
+        mgm = normws(fn_body(mgen, "generate_module"))
+        m_call = ("let selected_pipeline = if let Some(selected_pipeline) = module.selected_pipeline { "
+                  "Some(&module.pipelines[selected_pipeline]) } else { None }; "
+                  "let (mut pipeline_defs, pipeline_description) = generate_pipeline(selected_pipeline, &mut context)?;")
+        mpipe_src = T.src("msl/src/generator/pipeline.rs")
+        mgp_sig = re.search(r'fn generate_pipeline\(\s*def: Option<&ir::PipelineDefinition>,', mpipe_src) is not None
+        mgp = normws(fn_body(mpipe_src, "generate_pipeline"))
+        m_loop = "for decl in &context.module.root_definitions { analyse_bindings(decl, context, &mut binding_layout)?; }"
+        m_def = re.search(r'\bdef\b', mgp)
+        m_ok = (m_call in mgm and "PipelineDescription::default()" not in mgm and mgm.count("generate_pipeline(") == 1 and
+                mgp_sig and m_loop in mgp and (m_def is None or mgp.find(m_loop) < m_def.start()) and
+                mgp.endswith("let desc = binding_layout.finish(); Ok((defs, desc))") and
+                re.search(r'Ok\(GeneratedAST \{ ast_module: ast::Module \{ root_definitions \}, pipeline_description, \}\)$', mgm) is not None)
+        out.append("/-- msl `generate_module` calls `generate_pipeline(Option<&PipelineDefinition>)` unconditionally (not under a test of\n"
+                   "    `module.selected_pipeline`) and returns its `PipelineDescription`; inside, the `analyse_bindings` loop over every root\n"
+                   "    definition runs before the first mention of the pipeline definition and `binding_layout.finish()` is the result -/\n")
+        out.append(f"def mslBindingsReportedWithoutPipeline : Bool := {'true' if m_ok else 'false'}\n")
+
         # ------------------------------------------------------------------ order of the steps of compile() / build_pipeline()
         # every step that can end the compilation or that looks at the target, in source order; a step whose text is not
         # found is left out of the list, a Metal tool chain lookup is listed wherever it occurs
